@@ -7,7 +7,7 @@ WT=${MUT_WT:-/tmp/wt-mut}
 [ -d "$WT" ] || git -C /repo worktree add -q "$WT" HEAD
 git -C "$WT" checkout -q --detach "$(git -C /repo rev-parse HEAD)"
 for d in /verif/seeded/*/; do
-  id=$(basename "$d"); prop=$(python3 -c "import json;print(json.load(open('$d/meta.json'))['property'])")
+  id=$(basename "$d"); prop=$(python3 -c "import json;m=json.load(open('$d/meta.json'));print(m.get('checked_with',m['property']))")
   git -C "$WT" checkout -q -- . ; git -C "$WT" clean -fdq
   if ! git -C "$WT" apply --3way "$d/patch.diff" 2>/dev/null; then echo "$id $prop PATCH-DOES-NOT-APPLY"; git -C "$WT" checkout -q -- .; continue; fi
   git -C "$WT" reset -q
